@@ -27,7 +27,7 @@ def Ex.servedUnvalidated (h : Hist) (x : Ex) : Bool := x.fromStore && !x.got304 
     foreign bytes) that may still decode: what the cache then holds is not what it wrote, and properties
     stated over the cache's own writes (C03, C04) say nothing about it (C10 does) -/
 def Hist.contentFaultUpTo (h : Hist) (n : Nat) : Bool :=
-  h.faults.any fun f => f.n ≤ n && (f.kind == "flip" || f.kind == "bytes" || f.kind == "trunc")
+  h.faults.any fun f => f.n ≤ n && (f.kind == "flip" || f.kind == "bytes" || f.kind == "trunc" || f.kind == "cl")
 
 def monC03 (h : Hist) : Option String :=
   h.reqs.findSome? fun ri => do
@@ -263,6 +263,21 @@ where
   exTagS (x : Ex) : String := s!"{x.res.kind} {x.res.status} calls={x.fgCalls.length}"
 
 /-! ### C19 -/
+
+/-- store faults that can legitimately leave an entry without a reference: a write or a delete that failed, an index
+    that could not be read or decoded, an entry that came back with another identifier than its key (altered bytes
+    that still decode). An entry that merely cannot be READ (missing, truncated, garbage) excuses nothing: the
+    exchange stores its response in place of that reference, and the replaced response is removed. -/
+def storeFaultThatOrphans (h : Hist) : Bool :=
+  -- any injected fault on an operation on an INDEX key (a read answered "not there" makes the cache start a new index)
+  (h.faults.any fun f => (h.stores f.n f.stream).any fun s => s.idx = f.idx && !s.key.contains '#') ||
+  h.evs.any fun
+    | .store s =>
+      ((s.op == "set" || s.op == "del") && s.result != "ok") ||
+      (s.op == "get" && !s.key.contains '#' && (s.result == "err" || (match s.val with | .raw _ => true | _ => false))) ||
+      (s.op == "get" && (match s.val with | .ent en _ => en.id ≠ s.key | _ => false))
+    | _ => false
+
 def monC19 (h : Hist) : Option String :=
   -- final key set
   let keys : List Str := h.evs.foldl (fun acc ev => match ev with
@@ -328,7 +343,7 @@ def monC19 (h : Hist) : Option String :=
     -- resource whose replies keep changing what they vary on would leave one behind per request (one URI, one request
     -- header combination, a number of keys that grows with the number of requests). Histories with overlapping
     -- exchanges are left out (the recorded lost-update family), as are identifier collisions (recorded) and store faults.
-    (if !h.faults.isEmpty || h.concurrent || h.cls == "collide" || h.cls == "concurrent" || h.cls == "inval-race" ||
+    (if storeFaultThatOrphans h || h.concurrent || h.cls == "collide" || h.cls == "concurrent" || h.cls == "inval-race" ||
         h.cls == "reval-race" || h.cls == "swr" || h.cls == "swr-inval" || (h.evs.any fun | .call c => c.stream == "bg" | .store e => e.stream == "bg") then none else
       -- (the memory backend cannot list its keys: there the key set is the one the recorded writes and deletes leave)
       match (some (h.finalKeys.getD keys) : Option (List Str)) with
